@@ -157,7 +157,9 @@ func variants(full []byte, rng *rand.Rand, all bool, perField int) []variant {
 				add("st=", b)
 				b2 := cloneBytes(raw)
 				binary.BigEndian.PutUint32(b2[7:], t)
-				if t != 0 {
+				// a zero receiver tag is legitimate on key-exchange messages (the sender may not know our
+				// tag yet); on a data message it changes bytes the MAC covers
+				if t != 0 || h.Type == ref.TypeData {
 					add("rt=", b2)
 				}
 			}
@@ -266,10 +268,17 @@ func execAttack(w *world.World, s Step) bool {
 		for _, v := range vs {
 			// a form that still is a well-formed DH-Key with another value in range is accepted by
 			// design (first DH-Key wins): it only makes sense as a replacement of the genuine one
-			if ab := w.Abs([][]byte{v.raw}, p.Peer, p.Name); ab["t"] == "DHK" && otr3.VerifProject(p.Conv).AKE.State == "awDHKey" {
+			ab := w.Abs([][]byte{v.raw}, p.Peer, p.Name)
+			if ab["t"] == "DHK" && otr3.VerifProject(p.Conv).AKE.State == "awDHKey" {
 				if gy, ok := ab["gy"].(int); ok && gy != -2 && gy != wm.Abs["gy"] {
 					continue
 				}
+			}
+			// while our own DH-Commit is unanswered, any other well-formed DH-Commit is a collision to be
+			// resolved by comparing hashes (it is not authenticated): a damaged copy can by design make us
+			// give way; it only makes sense as a replacement of the genuine one
+			if ab["t"] == "DHC" && otr3.VerifProject(p.Conv).AKE.State == "awDHKey" && (ab["hash"] != wm.Abs["hash"] || ab["enc"] != wm.Abs["enc"]) {
+				continue
 			}
 			w.ReceiveAttack(p, [][]byte{v.raw}, v.name)
 		}
